@@ -2,7 +2,8 @@
 SELECT-ONE, MERGE-SHAPE, BRW-PURE.'''
 import ast
 
-from ..astutil import txt, call_name, receiver, walk_local, get_arg
+from ..astutil import (txt, call_name, receiver, walk_local, get_arg, calls_in,
+                       dotted)
 from ..loader import AnalysisError
 from .. import effects
 
@@ -633,3 +634,78 @@ def check_brw_pure(ctx, analyzer):
     ctx.decide('BRW-PURE', keep, 'Index.keep_only: no write into the index '
                'it filters', not effs, at=keep.where(),
                detail=effs[0].describe() if effs else None)
+
+
+# ---------------------------------------------------------- INDEX-BUILD ---
+
+def check_index_build(ctx):
+    """Browser._build_index: every item is registered under each of its
+    metadata keys (all but the data key) with its position in THIS browser.
+    An item taken from another browser already carries an 'index' entry (its
+    position there): the new position must be stored BEFORE the keys of the
+    item are walked (or 'index' must be left out of the walk and registered
+    apart), otherwise the old position is indexed too and select_by(index=k)
+    finds items that are not at k."""
+    program = ctx.program
+    klass = program.cls('valjean.eponine.browser:Browser')
+    meth = klass.methods.get('_build_index')
+    if meth is None:
+        raise AnalysisError('Browser._build_index not found')
+    program.consulted.add(meth.module.relpath)
+    outer = [n for n in walk_local(meth.node) if isinstance(n, ast.For) and
+             'content' in txt(n.iter)]
+    ctx.floor('INDEX-BUILD', len(outer), 1, 'loop over the content in '
+              '_build_index')
+    loop = outer[0]
+    tnames = [n.id for n in ast.walk(loop.target) if isinstance(n, ast.Name)]
+    pos_var = tnames[0] if 'enumerate' in txt(loop.iter) and tnames else None
+    elt_var = tnames[-1] if tnames else None
+    store_idx = walk_idx = None
+    key_loop = None
+    for idx, stmt in enumerate(loop.body):
+        if isinstance(stmt, ast.Assign) and any(
+                isinstance(t, ast.Subscript) and txt(t.value) == elt_var and
+                isinstance(t.slice, ast.Constant) and
+                t.slice.value == 'index' for t in stmt.targets):
+            store_idx = idx
+            ctx.decide('INDEX-BUILD', meth,
+                       f"the item records its position: {txt(stmt)}",
+                       txt(stmt.value) == pos_var, at=meth.where(stmt))
+        if isinstance(stmt, ast.For) and elt_var in txt(stmt.iter) and \
+                walk_idx is None:
+            walk_idx = idx
+            key_loop = stmt
+    if store_idx is None or key_loop is None:
+        ctx.undecided('INDEX-BUILD', meth, 'position store / walk over the '
+                      'keys not recognised', at=meth.where(loop))
+        return
+    excludes_index = any(
+        isinstance(n, ast.Compare) and any(
+            isinstance(c, ast.Constant) and c.value == 'index'
+            for c in [n.left] + n.comparators)
+        for n in ast.walk(key_loop))
+    ctx.decide('INDEX-BUILD', meth,
+               "the new position is stored before the keys of the item are "
+               "indexed (or 'index' is left out of the walk)",
+               store_idx < walk_idx or excludes_index,
+               at=meth.where(loop.body[store_idx]),
+               detail=None if store_idx < walk_idx or excludes_index else
+               "an item that comes from another browser (filter_by, merge) "
+               "still has its old 'index' when its keys are walked: both "
+               "positions are registered")
+    # the only key left out is the data key
+    guards = [n for n in ast.walk(key_loop) if isinstance(n, ast.If)]
+    for guard in guards:
+        names_ = {dotted(x) for x in ast.walk(guard.test)
+                  if isinstance(x, (ast.Attribute, ast.Name))}
+        ok = 'self.data_key' in names_ or (
+            excludes_index and "'index'" in txt(guard.test))
+        ctx.decide('INDEX-BUILD', meth,
+                   f'keys left out of the index: `{txt(guard.test)[:50]}`',
+                   True if ok else None, at=meth.where(guard))
+    adds = [c for c in calls_in(key_loop) if call_name(c) == 'add']
+    for call in adds:
+        ctx.decide('INDEX-BUILD', meth,
+                   f'registered id: {txt(call)[:60]}',
+                   bool(call.args) and txt(call.args[0]) == pos_var,
+                   at=meth.where(call))
